@@ -32,6 +32,8 @@ pub struct Conf {
     pub key_bits: usize,
     pub stm: Cfm,
     pub strf: Cfm,
+    /// a crypt filter named AltCF that neither StmF nor StrF refers to (V4+; only Crypt overrides select it)
+    pub extra: Option<Cfm>,
     pub encrypt_metadata: bool,
     pub perm_bits: u64,
     pub user: String,
@@ -60,7 +62,7 @@ impl Conf {
         }
     }
     pub fn label(&self) -> String {
-        format!("V{}R{}/{}bit/stm={:?}/str={:?}/meta={}", self.v(), self.r(), self.key_bits, self.stm, self.strf, self.encrypt_metadata)
+        format!("V{}R{}/{}bit/stm={:?}/str={:?}/alt={:?}/meta={}", self.v(), self.r(), self.key_bits, self.stm, self.strf, self.extra, self.encrypt_metadata)
     }
     pub fn enc_cfg(&self) -> EncCfg {
         EncCfg {
@@ -69,6 +71,7 @@ impl Conf {
             length_bits: self.key_bits,
             stm: self.stm,
             strf: self.strf,
+            extra: self.extra.iter().map(|c| (b"AltCF".to_vec(), *c)).collect(),
             encrypt_metadata: self.encrypt_metadata,
             p: Permissions::from_bits_truncate(self.perm_bits).p_value() as u32 as i32,
             user_pw: self.user_prepared.clone(),
@@ -101,6 +104,10 @@ fn prepare_r4(s: &str) -> Vec<u8> {
     s.chars().map(|c| c as u32 as u8).collect()
 }
 
+fn perm_sets() -> [u64; 8] {
+    [Permissions::all().bits(), 0, Permissions::PRINTABLE.bits(), (Permissions::PRINTABLE | Permissions::COPYABLE).bits(), Permissions::MODIFIABLE.bits(), (Permissions::all() - Permissions::PRINTABLE_IN_HIGH_QUALITY).bits(), Permissions::FILLABLE.bits(), (Permissions::ASSEMBLABLE | Permissions::ANNOTABLE).bits()]
+}
+
 pub fn gen_conf(r: &mut Rng, index: u64) -> Conf {
     // enumerate the handler space round-robin, sample the rest
     let kinds: [(u8, usize); 16] = [(1, 40), (2, 40), (2, 48), (2, 56), (2, 64), (2, 72), (2, 80), (2, 88), (2, 96), (2, 104), (2, 112), (2, 120), (2, 128), (4, 128), (5, 256), (6, 256)];
@@ -117,8 +124,12 @@ pub fn gen_conf(r: &mut Rng, index: u64) -> Conf {
         }
     };
     let encrypt_metadata = if kind >= 4 { r.bool() } else { true };
-    let perm_sets = [Permissions::all().bits(), 0, Permissions::PRINTABLE.bits(), (Permissions::PRINTABLE | Permissions::COPYABLE).bits(), Permissions::MODIFIABLE.bits(), (Permissions::all() - Permissions::PRINTABLE_IN_HIGH_QUALITY).bits(), Permissions::FILLABLE.bits(), (Permissions::ASSEMBLABLE | Permissions::ANNOTABLE).bits()];
-    let perm_bits = perm_sets[(index % 8) as usize];
+    let extra = match kind {
+        4 if r.chance(1, 2) => Some(if r.bool() { Cfm::Rc4 } else { Cfm::AesV2 }),
+        5 | 6 if r.chance(1, 2) => Some(Cfm::AesV3),
+        _ => None,
+    };
+    let perm_bits = perm_sets()[(index % 8) as usize];
     let (user, owner, up, op) = if kind <= 4 {
         let u = pdfdoc_password(r);
         let o = match r.below(5) {
@@ -138,7 +149,7 @@ pub fn gen_conf(r: &mut Rng, index: u64) -> Conf {
     for b in file_key.iter_mut() {
         *b = r.u8();
     }
-    Conf { kind, key_bits, stm, strf, encrypt_metadata, perm_bits, user, owner, user_prepared: up, owner_prepared: op, file_key }
+    Conf { kind, key_bits, stm, strf, extra, encrypt_metadata, perm_bits, user, owner, user_prepared: up, owner_prepared: op, file_key }
 }
 
 /// document with strings in every position, binary/empty strings and streams, a Metadata stream,
@@ -174,7 +185,7 @@ pub fn gen_doc(r: &mut Rng, with_crypt_override: bool) -> RDoc {
                     sd.push((k("Filter"), name("FlateDecode")));
                 }
                 if with_crypt_override && r.chance(1, 4) {
-                    let nm = *r.pick(&["Identity", "StdCF", "FRC4", "Nope"]);
+                    let nm = *r.pick(&["Identity", "StdCF", "FRC4", "Nope", "AltCF", "AltCF"]);
                     let mut dp = vec![(k("Type"), name("CryptFilterDecodeParms"))];
                     if r.chance(3, 4) {
                         dp.push((k("Name"), name(nm)));
@@ -222,6 +233,9 @@ pub fn lopdf_state(conf: &Conf, doc: &Document) -> Result<EncryptionState, Strin
             cfs.insert(filter_name(c).as_bytes().to_vec(), filter_arc(c));
         }
     }
+    if let Some(c) = conf.extra {
+        cfs.insert(b"AltCF".to_vec(), filter_arc(c));
+    }
     let version = match conf.kind {
         1 => EncryptionVersion::V1 { document: doc, owner_password: &conf.owner, user_password: &conf.user, permissions },
         2 => EncryptionVersion::V2 { document: doc, owner_password: &conf.owner, user_password: &conf.user, key_length: conf.key_bits, permissions },
@@ -253,6 +267,9 @@ fn stream_filter_for(conf: &Conf, sd: &[(Vec<u8>, RObj)]) -> Cfm {
         }
         if nm == filter_name(conf.strf).as_bytes() && conf.strf != Cfm::Identity {
             return conf.strf;
+        }
+        if let (b"AltCF", Some(c)) = (&nm[..], conf.extra) {
+            return c;
         }
         return Cfm::Identity;
     }
@@ -544,7 +561,7 @@ fn run_generic(cfg: &RunCfg, tag: &'static str, n_quick: u64, n_thorough: u64, f
                 out.finding(Finding {
                     signature: format!("{}/{}", tag, sig),
                     what,
-                    witness: json!({"kind":"enc","prop":tag,"seed":cfg.seed,"shard":shard,"index":i,"global_index":gi,"config":conf.label(),"user":conf.user,"owner":conf.owner,"doc":rdoc_to_json(&model)}),
+                    witness: json!({"kind":"enc","prop":tag,"seed":cfg.seed,"shard":shard,"index":i,"global_index":gi,"config":conf.label(),"conf":conf_to_json(&conf),"user":conf.user,"owner":conf.owner,"doc":rdoc_to_json(&model)}),
                 });
             }
             if i == 0 {
@@ -559,7 +576,7 @@ pub fn run_c05(cfg: &RunCfg) -> (PropMeta, ShardOut, Map<String, Value>) {
     let out = run_generic(cfg, "C05", 1600, 60_000, &|conf, model, r, _| c05_case(conf, model, r).into_iter().collect());
     let meta = PropMeta {
         level: "exploration",
-        rule: "security-handler configurations enumerated round-robin ({V1; V2 with 40..128-bit keys; V4 with RC4/AESV2/Identity chosen independently for streams and strings; R5; V5} x EncryptMetadata x 8 permission sets) with sampled password pairs (empty, ASCII, Latin-1, > 32 bytes, SASLprep-sensitive Unicode and > 127 bytes for R5/R6, owner == user, empty owner) and documents with strings nested in arrays/dictionaries/stream dictionaries, binary and empty strings/streams, a Metadata stream, compressed streams and per-stream Crypt overrides. Per case: encrypt; no string/stream >= 16 bytes under a non-identity filter still equals its plaintext; a wrong password is rejected and leaves the document unchanged; decrypt with the user and with the owner password, in memory and after save_to + load_mem, restores every byte and removes the encryption dictionary. distinct = distinct (configuration, passwords, document).".into(),
+        rule: "security-handler configurations enumerated round-robin ({V1; V2 with 40..128-bit keys; V4 with RC4/AESV2/Identity chosen independently for streams and strings; R5; V5} x EncryptMetadata x 8 permission sets) with sampled password pairs (empty, ASCII, Latin-1, > 32 bytes, SASLprep-sensitive Unicode and > 127 bytes for R5/R6, owner == user, empty owner) and documents with strings nested in arrays/dictionaries/stream dictionaries, binary and empty strings/streams, a Metadata stream, compressed streams and per-stream Crypt overrides (naming Identity, the default filters, an unknown filter, or - in half of the V4+ configurations - a further crypt filter AltCF listed in CF that neither StmF nor StrF refers to). Per case: encrypt; no string/stream >= 16 bytes under a non-identity filter still equals its plaintext; a wrong password is rejected and leaves the document unchanged; decrypt with the user and with the owner password, in memory and after save_to + load_mem, restores every byte and removes the encryption dictionary. distinct = distinct (configuration, passwords, document).".into(),
         assumptions: vec!["R<=4 passwords are drawn from ASCII and Latin-1 letters (identical in PDFDocEncoding); R>=5 passwords come from the Python-generated SASLprep table".into()],
         exhaustive: false,
         min_distinct: 200,
@@ -579,7 +596,7 @@ pub fn run_c06(cfg: &RunCfg) -> (PropMeta, ShardOut, Map<String, Value>) {
     });
     let meta = PropMeta {
         level: "exploration",
-        rule: "both directions against an independent implementation of ISO 32000 Algorithms 1, 1.A, 2, 2.A, 2.B, 3-13 (own MD5/SHA-2/AES/RC4): (ref -> lopdf) documents encrypted by the reference handler with fresh IDs, salts, IVs and file keys, written by the reference writer, opened by Document::load_mem + decrypt with the user and the owner password (absent owner password included); (lopdf -> ref) documents encrypted and saved by lopdf, parsed by the strict reader, both passwords authenticated by the reference handler from O/U/OE/UE/Perms/P/Length/V/R/CF/StmF/StrF, every string (also in stream dictionaries) and stream decrypted and compared with the original; Perms checked with Algorithm 13 and P's reserved bits with Table 22. Revisions 2-6, all RC4 key lengths, RC4/AESV2/AESV3/Identity, EncryptMetadata, 8 permission words. lopdf's agreement with itself is never consulted. distinct = distinct (configuration, passwords, document).".into(),
+        rule: "both directions against an independent implementation of ISO 32000 Algorithms 1, 1.A, 2, 2.A, 2.B, 3-13 (own MD5/SHA-2/AES/RC4): (ref -> lopdf) documents encrypted by the reference handler with fresh IDs, salts, IVs and file keys, written by the reference writer, opened by Document::load_mem + decrypt with the user and the owner password (absent owner password included); (lopdf -> ref) documents encrypted and saved by lopdf, parsed by the strict reader, both passwords authenticated by the reference handler from O/U/OE/UE/Perms/P/Length/V/R/CF/StmF/StrF, every string (also in stream dictionaries) and stream decrypted and compared with the original; Perms checked with Algorithm 13 and P's reserved bits with Table 22. Revisions 2-6, all RC4 key lengths, RC4/AESV2/AESV3/Identity, non-default crypt filters selected by per-stream Crypt overrides, EncryptMetadata, 8 permission words. lopdf's agreement with itself is never consulted. distinct = distinct (configuration, passwords, document).".into(),
         assumptions: vec!["reference primitives verified against RFC/FIPS vectors and cross-checked with openssl/hashlib during development; SASLprep expectations come from Python's stringprep tables".into()],
         exhaustive: false,
         min_distinct: 200,
@@ -587,11 +604,77 @@ pub fn run_c06(cfg: &RunCfg) -> (PropMeta, ShardOut, Map<String, Value>) {
     (meta, out, Map::new())
 }
 
+fn cfm_from(s: &str) -> Option<Cfm> {
+    Some(match s {
+        "Identity" => Cfm::Identity,
+        "Rc4" => Cfm::Rc4,
+        "AesV2" => Cfm::AesV2,
+        "AesV3" => Cfm::AesV3,
+        _ => return None,
+    })
+}
+
+fn conf_to_json(c: &Conf) -> Value {
+    json!({"kind":c.kind,"key_bits":c.key_bits,"stm":format!("{:?}",c.stm),"strf":format!("{:?}",c.strf),"extra":c.extra.map(|x| format!("{:?}",x)),"encrypt_metadata":c.encrypt_metadata,"perm_bits":c.perm_bits,"user_prepared":hex(&c.user_prepared),"owner_prepared":hex(&c.owner_prepared),"file_key":hex(&c.file_key)})
+}
+
+/// witnesses are self-contained: configuration, passwords and document are stored, nothing is regenerated.
+/// (Witnesses written before the configuration was stored carry only its label; the rest is derived from it.)
+fn conf_from_witness(w: &Value) -> Option<Conf> {
+    let user = w.get("user")?.as_str()?.to_string();
+    let owner = w.get("owner")?.as_str()?.to_string();
+    if let Some(c) = w.get("conf") {
+        let mut file_key = [0u8; 32];
+        let fk = unhex(c.get("file_key")?.as_str()?);
+        file_key.copy_from_slice(fk.get(..32)?);
+        return Some(Conf {
+            kind: c.get("kind")?.as_u64()? as u8,
+            key_bits: c.get("key_bits")?.as_u64()? as usize,
+            stm: cfm_from(c.get("stm")?.as_str()?)?,
+            strf: cfm_from(c.get("strf")?.as_str()?)?,
+            extra: c.get("extra").and_then(|x| x.as_str()).and_then(cfm_from),
+            encrypt_metadata: c.get("encrypt_metadata")?.as_bool()?,
+            perm_bits: c.get("perm_bits")?.as_u64()?,
+            user_prepared: unhex(c.get("user_prepared")?.as_str()?),
+            owner_prepared: unhex(c.get("owner_prepared")?.as_str()?),
+            user,
+            owner,
+            file_key,
+        });
+    }
+    // label: V<v>R<r>/<bits>bit/stm=<Cfm>/str=<Cfm>/meta=<bool>
+    let label = w.get("config")?.as_str()?;
+    let parts: Vec<&str> = label.split('/').collect();
+    let (v, r) = parts.first()?.strip_prefix('V')?.split_once('R')?;
+    let kind = match (v, r) {
+        ("1", _) => 1,
+        ("2", _) => 2,
+        ("4", _) => 4,
+        ("5", "5") => 5,
+        _ => 6,
+    };
+    let key_bits = parts.get(1)?.strip_suffix("bit")?.parse().ok()?;
+    let stm = cfm_from(parts.get(2)?.strip_prefix("stm=")?)?;
+    let strf = cfm_from(parts.get(3)?.strip_prefix("str=")?)?;
+    let encrypt_metadata = parts.last()?.strip_prefix("meta=")? == "true";
+    let perm_bits = perm_sets()[(w.get("global_index")?.as_u64()? % 8) as usize];
+    let (up, op) = if kind <= 4 {
+        (prepare_r4(&user), prepare_r4(&owner))
+    } else {
+        let prep = |s: &str| PAIRS.iter().find(|p| p.0 == s).and_then(|p| p.1).map(|x| x.as_bytes().to_vec());
+        (prep(&user)?, prep(&owner)?)
+    };
+    let mut file_key = [0u8; 32];
+    for (i, b) in file_key.iter_mut().enumerate() {
+        *b = (i as u8).wrapping_mul(37).wrapping_add(11);
+    }
+    Some(Conf { kind, key_bits, stm, strf, extra: None, encrypt_metadata, perm_bits, user, owner, user_prepared: up, owner_prepared: op, file_key })
+}
+
 fn replay_generic(w: &Value, tag: &'static str) -> Vec<Finding> {
     let g = |kk: &str| w.get(kk).and_then(|x| x.as_u64()).unwrap_or(0);
     let mut r = Rng::for_case(g("seed"), tag, g("shard"), g("index"));
-    let conf = gen_conf(&mut r, g("global_index"));
-    let model = gen_doc(&mut r, conf.kind >= 4);
+    let (Some(conf), Some(model)) = (conf_from_witness(w), w.get("doc").and_then(rdoc_from_json)) else { return vec![] };
     let vs: Vec<(String, String)> = if tag == "C05" {
         c05_case(&conf, &model, &mut r).into_iter().collect()
     } else if g("global_index") % 2 == 0 {
